@@ -489,6 +489,12 @@ func runCheck(prop, tier string) int {
 		} else if !cfg.Race {
 			_, err := runTimeout(3*time.Minute, b.scratch, env, b.worker, "-replay", path, "-scratch", filepath.Join(b.scratch, "rep"))
 			code := exitCode(err)
+			// the two step kinds that run in real time (conversion storm, packets fed
+			// to the PCAP-over-IP handler) are replayed up to three times
+			for try := 0; code != 1 && try < 2 && (bytes.Contains(ol.Plan, []byte(`"k":"Storm"`)) || bytes.Contains(ol.Plan, []byte(`"poip":true`))); try++ {
+				_, err = runTimeout(3*time.Minute, b.scratch, env, b.worker, "-replay", path, "-scratch", filepath.Join(b.scratch, "rep"))
+				code = exitCode(err)
+			}
 			if code != 1 {
 				fmt.Fprintf(os.Stderr, "verif: replay of %s ended with exit %d instead of reproducing %s\n", path, code, k)
 				exit = 2
